@@ -11,9 +11,22 @@
   Which images a crash can leave (prefixes of the commit log) is NOT derived in the model: the harness
   takes them from the real Store's write log and checks every one of them (see DESIGN.md §4 C06).
 -/
+import GoHeader.Store.PtrFault
 import GoHeader.Lemmas.Store
 namespace GoHeader.C06
 open GoHeader GoHeader.Store
+
+/-- a refused write of the tail pointer inside a tail-side DeleteRange (`Store.PtrFault`): the Tail the running store
+    reports still resolves to a stored header ... -/
+theorem c06_pointer_fault_tail_resolves (s : PtrFault.St) (to : Nat) (hto : to ∈ s.stored) (fault : Bool) :
+    PtrFault.TailResolves (PtrFault.deleteTail true s to fault) :=
+  PtrFault.delete_fault_tail_resolves s to hto fault
+
+/-- ... and a clean Stop / Start reports the same Tail as before (the final flush persists the pointers from memory) -/
+theorem c06_pointer_fault_restart_same_tail (s : PtrFault.St) (to : Nat) (hto : to ∈ s.stored) (fault : Bool) :
+    (PtrFault.reopen (PtrFault.stop (PtrFault.deleteTail true s to fault))).memTail =
+      (PtrFault.deleteTail true s to fault).memTail :=
+  PtrFault.fault_then_restart_same_tail s to hto fault
 
 /-- Clean restart: after Stop and Start the Store reports the same Head, Tail and Height and holds
     exactly the headers it was given — including every batch whose Append returned before Stop
